@@ -221,15 +221,15 @@ class Ref:
         how = op["how"]
         lb, ub = op.get("lb"), op.get("ub")
         if how == "bounds":
-            if lb > ub:
+            if not lb <= ub:  # also: not a number
                 return "raises"
             x["lb"], x["ub"] = lb, ub
         elif how == "lb":
-            if lb > x["ub"]:
+            if not lb <= x["ub"]:
                 return "raises"
             x["lb"] = lb
         else:
-            if x["lb"] > ub:
+            if not x["lb"] <= ub:
                 return "raises"
             x["ub"] = ub
         return "ok"
@@ -690,6 +690,8 @@ class Ref:
         return "ok"
 
     def t_build_from_string(self, op, env):
+        if op.get("bad_term"):
+            return "unknown"  # the parser gives up part-way: what is left behind is not documented (inside a context C03 still applies)
         x = self.rxns[op["r"]]
         arrow = op["arrow"]
         if arrow == "<=>":
